@@ -425,9 +425,14 @@ class C09(Monitor):
             if sem["named"][0] == "n":
                 declared.append((sem["named"][1], sem["named_amt"]))
         else:
+            pair_denoms = set(x[1] for x in sem["pair"].assets if x[0] == "n")
             for a in op["msg"]["provide_liquidity"]["assets"]:
                 if "native_token" in a["info"]:
                     declared.append((a["info"]["native_token"]["denom"], int(a["amount"])))
+                elif a["info"].get("token", {}).get("contract_addr") in pair_denoms:
+                    # the pair's native coin named by its denom, only wrapped in the other JSON shape: it is still the
+                    # native asset that gets credited if the call is accepted
+                    declared.append((a["info"]["token"]["contract_addr"], int(a["amount"])))
         return declared
 
     def on_step(self, st):
